@@ -939,6 +939,29 @@ package gldap
 //@   sets G_npend[w] = 0 when err == nil
 //@   sets G_pendstr[w] = "" when err == nil
 //@   panics false
+//@ extern (*bufio.Writer).Reset
+//@   params b *bufio.Writer, w io.Writer
+//@   requires b != nil && heldw(G_guard[b])
+//@   sets G_wdst[b] = w
+//@   sets G_npend[b] = 0
+//@   sets G_pendstr[b] = ""
+//@   sets G_werr[b] = false
+//@   panics false
+//@ extern (*bufio.Reader).Reset
+//@   params b *bufio.Reader, r io.Reader
+//@   requires b != nil
+//@   sets G_rsrc[b] = r
+//@   panics false
+//@ extern (*bufio.Reader).Buffered
+//@   params b *bufio.Reader
+//@   results n int
+//@   ensures n >= 0
+//@   panics false
+//@ extern io.MultiReader
+//@   params readers []io.Reader
+//@   results r io.Reader
+//@   ensures !isNilIface(r) && fresh(iref(r))
+//@   panics false
 // nothing stays buffered while the guard lock is free
 // ... or the writer is in bufio's sticky error state and will never emit again
 //@ lockinv any : forallref(W, *bufio.Writer, G_guard[W] == m ==> (G_npend[W] == 0 && G_pendstr[W] == "") || G_werr[W])
